@@ -202,6 +202,17 @@ def run(seed=0):
                 if got != want:
                     return False, "regex %r.%s(%r): symbolic %r, re module %r" % (pat, mode, txt, got, want)
                 n += 1
+            # path-counting semantics: a string is matched iff it is consumed in at least one way; on concrete text vs symbolic text
+            tree = list(symre.sre_parse.parse(pat, 0))
+            eng = Pinned()
+            eng.start_path()
+            st = _sym(eng, "s", txt)
+            ways_c = symre._count(tree, {0: 1}, [ord(c) for c in txt], 0).get(len(txt), 0)
+            ways_s = symre._count(tree, {0: 1}, core._cps(st), 0).get(len(txt), 0)
+            ways_s = ways_s if isinstance(ways_s, int) else eng.val(ways_s).as_long()
+            if (ways_c > 0) != (cp.fullmatch(txt) is not None) or ways_c != ways_s:
+                return False, "regex path count %r on %r: concrete %r symbolic %r, fullmatch %r" % (pat, txt, ways_c, ways_s, cp.fullmatch(txt))
+            n += 1
     # (iii) the hook is the identity on concrete values: tokenizer on sample lines, instrumented vs builtin semantics
     try:
         import sys
